@@ -358,33 +358,33 @@ GEN_FUNCS = ['typify_impl::TypeSpace::{add_ref_types, add_type, to_stream} (run 
              'the generated code: Deserialize/Serialize (serde_derive expansion of the emitted attributes), FromStr, TryFrom, Display, builder module, defaults module']
 
 PLAN['C02'] = mk_e2(
-    'C02', lambda tier, rng: e2_select('C02', tier, rng, r'_inst_\w+_(p|p2)$', 16, {'inst'}),
+    'C02', lambda tier, rng: e2_select('C02', tier, rng, r'_inst_\w+_(p|p2)$', 14, {'inst'}),
     'bounded symbolic execution + SAT (Kani/CBMC) of generated Deserialize impls over schema-shaped instances with symbolic leaves',
     'bounded symbolic verification (Kani/CBMC) of the code typify generates for a stated schema corpus: every instance of the harness\'s concrete shape (all integers, booleans, strings up to the width pattern) that our draft-07 evaluator classifies valid deserializes into the generated type',
     GEN_FUNCS,
     'Bounded symbolic verification of generated deserializers: for each corpus schema and each enumerated instance shape the solver shows valid(S, v) => T_S::deserialize(v) is Ok for all leaf values.')
 PLAN['C03'] = mk_e2(
-    'C03', lambda tier, rng: e2_select('C03', tier, rng, r'_rt_\w+_(p|p0)$|_in_|_id_\w+$', 10),
+    'C03', lambda tier, rng: e2_select('C03', tier, rng, r'_rt_(pt|defaults|withenum|triple|pair|nullable_obj|ints)_p$|_rt_(pt|defaults)_p0$|_in_|_id_\w+$', 5),
     'bounded symbolic execution + SAT (Kani/CBMC) of generated Deserialize -> Serialize -> Deserialize over symbolic valid instances',
     'bounded symbolic verification (Kani/CBMC) of the round trip through generated code for a stated corpus: declared members are kept with equal values, only null/empty optional members are dropped, only schema defaults are added, and serializing the defaults-filled instance again reproduces the same document',
     GEN_FUNCS,
     'Bounded symbolic verification of the round trip: for each corpus schema and shape, for all valid leaf values: w = ser(de(v)) keeps every declared member with an equal value, adds only schema defaults, and ser(de(v + defaults)) == w.',
     extra_outside=['idempotence is checked on v + defaults (concrete layout) instead of re-reading w, whose member presence is symbolic; that omitted members may be omitted is covered by the instance harnesses with those members absent'])
 PLAN['C11'] = mk_e2(
-    'C11', lambda tier, rng: e2_select('C11', tier, rng, r'_se_\w+_(e|1|2|21)$|_sn_\w+_(x|t)$|_sp_', 24),
+    'C11', lambda tier, rng: e2_select('C11', tier, rng, r'_se_(colors|odd)_(e|1|2|21)$|_sn_(colors|odd)_\d_(x|t)$|_sp_alias_(e|2|21)$|_sc_len_2_3_(1|21|22|222)$', 14),
     'bounded symbolic execution + SAT (Kani/CBMC) of generated FromStr/TryFrom/Display vs Deserialize/Serialize over all code points',
     'bounded symbolic verification (Kani/CBMC) of the string conversions typify generates (string enums, constrained and plain string newtypes): for every string of the harness\'s width pattern parse, the three TryFrom flavours and Deserialize agree, accepted values serialize back to the same string, Display prints what Serialize writes',
     GEN_FUNCS,
     'Bounded symbolic verification of generated string conversions: for all strings of up to 3 Unicode scalar values (all code points) and every member with one scalar substituted/appended/removed: s.parse().is_ok() == deserialize(s).is_ok(), TryFrom agrees, values equal, to_string() == serialized string.')
 PLAN['C14'] = mk_e2(
-    'C14', lambda tier, rng: e2_select('C14', tier, rng, r'_eq_(pt|nested)_\w+_p$', 6),
+    'C14', lambda tier, rng: e2_select('C14', tier, rng, r'_eq_(pt|withenum)_\w+_p$', 4),
     'bounded symbolic execution + SAT (Kani/CBMC): two-program equivalence of the types generated under two settings, on one symbolic instance',
     'bounded symbolic verification (Kani/CBMC) of the behavioural sentence of C14 only: for the corpus structs/tuples, the type generated under default settings and under {builder, extra derive, BTreeMap map type, a patch renaming another definition} accept the same instances and write the same JSON; the syntactic obligations (names, derive lists, use sites) are facts about rendered tokens and are outside',
     GEN_FUNCS + ['typify_impl::TypeSpaceSettings::{with_struct_builder, with_derive, with_map_type, with_patch}'],
     'Bounded symbolic two-program equivalence: the same symbolic instance is fed to the type generated under default settings and under another setting; accept/reject and the serialized document must agree.',
     extra_outside=['replace / convert settings (the affected type changes by design)', 'all syntactic obligations of C14'])
 PLAN['C18'] = mk_e2(
-    'C18', lambda tier, rng: e2_select('C18', tier, rng, r'_bd_\\w+_(p|p0|m0|m1|m2)$', 2),
+    'C18', lambda tier, rng: e2_select('C18', tier, rng, r'_bd_\w+_(p|p0|m0|m1|m2)$', 2),
     'bounded symbolic execution + SAT (Kani/CBMC) of the generated builder module: setter subsets x symbolic values',
     'bounded symbolic verification (Kani/CBMC) of the generated builder for the corpus structs: for each enumerated subset of setters called and all values, try_into succeeds iff every property without default is set and every supplied value converts; the built value equals deserializing an object with the same members; struct -> builder -> struct is the identity. The text of the error message is outside (formatting is stubbed)',
     GEN_FUNCS,
@@ -394,7 +394,7 @@ PLAN['C18'] = mk_e2(
 
 def c05_all(tier, rng):
     u = c05_units(tier, rng)
-    u += e2_select('C05', tier, rng, r'_sc_len_2_3_(e|1|21|22|222|2222)$|_sd_notab_(1|m0)$|_in_|_id_\w+$|_inst_pt_closed_(x0|p)$|_inst_(pair|triple)_a0[pm]$', 24)
+    u += e2_select('C05', tier, rng, r'_sc_len_2_3_(e|1|21|22|222|2222)$|_sd_notab_(1|m0)$|_in_|_id_\w+$|_inst_pt_closed_(x0|p)$|_inst_(pair|triple)_a0[pm]$|_se_colors_(1|21)$|_sn_colors_1_(x|s0)$', 14)
     return u
 
 
